@@ -636,7 +636,7 @@ class Interp:
                 for o in self.call(fpath, list(vals), depth + 1):
                     res.append((Outcome(o.val, pushes + o.pushes, o.ctl, notes + o.notes), e))
                 continue
-            if p.endswith("lifetimes::Borrow::new") and len(vals) == 2:
+            if p.endswith("::Borrow::new") and len(vals) == 2:
                 res.append((Outcome(("rec", (("lifetime", vals[0]), ("mutability", vals[1]))), pushes, None, notes), e))
                 continue
             if p.endswith("boxed::Box::new") or p.endswith("convert::From::from") or p.endswith("convert::Into::into"):
